@@ -156,3 +156,69 @@ Example C10_example_entry :
                                    VDict [(lit "title", VStr [c_lb]); (lit "year", VStr no_enclosing)])])
                 (lit "article") (lit "k") [mkfield (lit "title") (VStr (lit "T")) None; mkfield (lit "year") (VStr (lit "1990")) None]).
 Proof. vm_compute. reflexivity. Qed.
+
+(* ---- the re-parse clause, composed with the splitter model (Proofs/ReparseProofs.v): adding the default enclosing to
+   a brace-balanced value (a `braced` content of the grammar: no active brace outside a group, not ending in a
+   backslash, no block-start pattern = not in K2), written into an entry and re-parsed with the default stack, is one
+   field with exactly that content; same for the quote default over `quoted` content (no bare quote outside braces,
+   and none inside = not in K4); K2 and K4 are refuted by witnesses *)
+From BP Require Import Model.Lexer Model.Splitter Model.Grammar Model.Pipeline Proofs.SplitGrammar Proofs.ReparseProofs.
+Theorem C10_reparse_brace' : forall (b : braced) typ key pre name w1 w2 post,
+  frame_ok typ key pre name w1 w2 post = true ->
+  wf_braced false b = true ->                          (* brace-balanced, no active brace outside a group, no final backslash *)
+  noat (render_braced b) [c_rb] = true ->              (* not in K2: no '@' word* blank* '{' in the value *)
+  let v := render_braced b in
+  let ev := c_lb :: v ++ [c_rb] in
+  let text := entry_text typ key pre name w1 w2 ev post in
+  (forall md air, enclose (mkadd false true [c_lb]) (VStr v) md air = Enclosing.Val (VStr ev))
+  /\ split_raw text = Blocks [BEntry (mkhdr (Some 0) (Some text) []) (lower typ) key
+                                [mkfield name (VStr ev) (Some (fline_of typ key pre name w1))]]
+  /\ strip_enclosing ev = (v, [c_lb])
+  /\ parse_default text =
+     PVal [BEntry (mkhdr (Some 0) (Some text) [(Gen.Constants.remove_enclosing_metadata_key, VDict [(name, VStr [c_lb])])])
+             (lower typ) key [mkfield name (VStr v) (Some (fline_of typ key pre name w1))]].
+Proof. exact ReparseProofs.C10_reparse_brace. Qed.
+Print Assumptions C10_reparse_brace'.
+
+Theorem C10_reparse_quote' : forall (q : quoted) typ key pre name w1 w2 post,
+  frame_ok typ key pre name w1 w2 post = true ->
+  wf_quoted false q = true ->                          (* brace-balanced, no active quote at all (outside braces: the
+                                                          quantifier; inside braces: not in K4), no final backslash *)
+  noat (render_quoted q) [c_quote] = true ->           (* not in K2 *)
+  let v := render_quoted q in
+  let ev := c_quote :: v ++ [c_quote] in
+  let text := entry_text typ key pre name w1 w2 ev post in
+  (forall md air, enclose (mkadd false true [c_quote]) (VStr v) md air = Enclosing.Val (VStr ev))
+  /\ split_raw text = Blocks [BEntry (mkhdr (Some 0) (Some text) []) (lower typ) key
+                                [mkfield name (VStr ev) (Some (fline_of typ key pre name w1))]]
+  /\ strip_enclosing ev = (v, [c_quote])
+  /\ parse_default text =
+     PVal [BEntry (mkhdr (Some 0) (Some text) [(Gen.Constants.remove_enclosing_metadata_key, VDict [(name, VStr [c_quote])])])
+             (lower typ) key [mkfield name (VStr v) (Some (fline_of typ key pre name w1))]].
+Proof. exact ReparseProofs.C10_reparse_quote. Qed.
+Print Assumptions C10_reparse_quote'.
+
+Theorem C10_reparse_refuted_K2 :
+  render_braced k2_b = lit "a @b{c}"
+  /\ frame_ok (lit "article") (lit "k") (lit " ") (lit "t") (lit " ") (lit " ") [] = true
+  /\ wf_braced false k2_b = true /\ noat (render_braced k2_b) [c_rb] = false
+  /\ ex_frame (c_lb :: render_braced k2_b ++ [c_rb]) = lit "@article{k, t = {a @b{c}}}"
+  /\ map class_of (blocks_of (split_raw (ex_frame (c_lb :: render_braced k2_b ++ [c_rb])))) = [CFailed; CEntry; CImpl]
+  /\ forall h t k fs, split_raw (ex_frame (c_lb :: render_braced k2_b ++ [c_rb])) <> Blocks [BEntry h t k fs].
+Proof. exact ReparseProofs.C10_reparse_brace_refuted_K2. Qed.
+Print Assumptions C10_reparse_refuted_K2.
+
+Theorem C10_reparse_refuted_K4 :
+  render_quoted k4_q = [c_lb; c_quote; c_rb] /\ render_braced k4_b = [c_lb; c_quote; c_rb]
+  /\ wf_braced false k4_b = true /\ noat (render_braced k4_b) [c_rb] = true
+  /\ wf_quoted false k4_q = false /\ noat (render_quoted k4_q) [c_quote] = true
+  /\ map class_of (blocks_of (split_raw (ex_frame (c_quote :: render_quoted k4_q ++ [c_quote])))) = [CEntry; CImpl]
+  /\ (forall h t k n fl, split_raw (ex_frame (c_quote :: render_quoted k4_q ++ [c_quote]))
+                         <> Blocks [BEntry h t k [mkfield n (VStr (c_quote :: render_quoted k4_q ++ [c_quote])) fl]])
+  /\ match blocks_of (split_raw (ex_frame (c_quote :: render_quoted k4_q ++ [c_quote]))) with
+     | BEntry _ _ _ [f] :: _ => fval f = VStr [c_quote; c_lb; c_quote]
+     | _ => False
+     end.
+Proof. exact ReparseProofs.C10_reparse_quote_refuted_K4. Qed.
+Print Assumptions C10_reparse_refuted_K4.
+
